@@ -14,6 +14,8 @@ import (
 	"sort"
 	"strings"
 	"testing"
+
+	"github.com/go-spring/log/expr"
 )
 
 // refRoute is the reference longest-prefix matcher of C02: literal entry, else the wildcard P_* with
@@ -731,4 +733,279 @@ func TestGovcBounded_C15(t *testing.T) {
 			}
 			return n
 		}(), len(bad), len(keys), len(junk), map[bool]string{true: ", inline/extended variants, all pairs of deletions", false: ""}[thorough])
+}
+
+// ---------------------------------------------------------------------------------------------------
+// C17: the expression parser
+
+// lexItems: the alternatives of the STRING rule of Expr.g4 ( ~["\\] | '\\' ["\\/bfnrt] ) with their values
+var lexItems = []struct{ src, val string }{
+	{"a", "a"}, {" ", " "}, {"/", "/"}, {"=", "="}, {"{", "{"}, {"'", "'"}, {"\n", "\n"}, {"\t", "\t"}, {"\r", "\r"}, {"\u00e9", "\u00e9"}, {"$", "$"},
+	{`\"`, `"`}, {`\\`, `\`}, {`\/`, "/"}, {`\b`, "\b"}, {`\f`, "\f"}, {`\n`, "\n"}, {`\r`, "\r"}, {`\t`, "\t"},
+}
+
+// searchStringLiterals runs the real Parse on T{k="<body>"} for every body of at most n items
+func searchStringLiterals(n int) (cases int, bad string) {
+	var rec func(src, val string, d int) bool
+	rec = func(src, val string, d int) bool {
+		cases++
+		in := "T{k=\"" + src + "\"}"
+		m, err := expr.Parse(in)
+		if err != nil {
+			bad = fmt.Sprintf("Parse(%q) fails on a well-formed expression (string literal the lexer admits): %v", in, firstLine(err.Error()))
+			return true
+		}
+		if m["k"] != val || m["type"] != "T" || len(m) != 2 {
+			bad = fmt.Sprintf("Parse(%q) = %q, want k=%q", in, m, val)
+			return true
+		}
+		if d == 0 {
+			return false
+		}
+		for _, it := range lexItems {
+			if rec(src+it.src, val+it.val, d-1) {
+				return true
+			}
+		}
+		return false
+	}
+	rec("", "", n)
+	return
+}
+
+func firstLine(s string) string {
+	if i := strings.IndexByte(s, '\n'); i >= 0 {
+		return s[:i]
+	}
+	return s
+}
+
+func init() {
+	replayers["(*expr.ParseTreeListener).parseInnerExpr"] = func(in map[string]any) {
+		if _, bad := searchStringLiterals(2); bad != "" {
+			fmt.Println("REPLAY: confirmed (bounded search: string bodies of at most 2 lexer items)", bad)
+			return
+		}
+		fmt.Println("REPLAY: not-reproduced")
+	}
+}
+
+// c17Gen generates well-formed expressions together with the map the statement of C17 assigns to them.
+type c17Gen struct {
+	seed uint64
+}
+
+func (g *c17Gen) next(n int) int {
+	// xorshift64*: deterministic, seeded by VERIF_SEED
+	g.seed ^= g.seed >> 12
+	g.seed ^= g.seed << 25
+	g.seed ^= g.seed >> 27
+	return int((g.seed * 2685821657736338717) >> 33 % uint64(n))
+}
+
+func (g *c17Gen) ws() string {
+	return []string{"", "", " ", "  ", "\n", "\t ", " \r\n "}[g.next(7)]
+}
+
+func (g *c17Gen) scalar() (src, val string) {
+	switch g.next(4) {
+	case 0:
+		v := []string{"x", "true", "info", "_a1", "Z9_", "stdout"}[g.next(6)]
+		return v, v
+	case 1:
+		n := g.next(4)
+		for i := 0; i < n; i++ {
+			it := lexItems[g.next(len(lexItems))]
+			src += it.src
+			val += it.val
+		}
+		return "\"" + src + "\"", val
+	case 2:
+		v := []string{"42", "-17", "+5", "0", "0x1F", "0xabc", "007"}[g.next(7)]
+		return v, v
+	}
+	v := []string{"3.14", "-0.5", "+2E10", ".25e-2", "1e5", "10.0E+3", "-.5"}[g.next(7)]
+	return v, v
+}
+
+func (g *c17Gen) path() string {
+	p := []string{"a", "b", "level", "file_name", "type", "A"}[g.next(6)]
+	for n := g.next(3); n > 0; n-- {
+		if g.next(2) == 0 {
+			p += g.ws() + "." + g.ws() + []string{"c", "d", "out", "type"}[g.next(4)]
+		} else {
+			p += g.ws() + "[" + g.ws() + []string{"0", "1", "12"}[g.next(3)] + g.ws() + "]"
+		}
+	}
+	return p
+}
+
+func stripWS(s string) string {
+	return strings.NewReplacer(" ", "", "\n", "", "\t", "", "\r", "").Replace(s)
+}
+
+// expr renders one expression below key prefix, adding its entries to want in source order
+func (g *c17Gen) expr(prefix string, depth int, want map[string]string) string {
+	typ := []string{"T", "Logger", "File_1", "a"}[g.next(4)]
+	if prefix == "" {
+		want["type"] = typ
+	} else {
+		want[prefix+".type"] = typ
+	}
+	src := typ + g.ws() + "{" + g.ws()
+	n := g.next(4)
+	for i := 0; i < n; i++ {
+		p := g.path()
+		key := stripWS(p)
+		if prefix != "" {
+			key = prefix + "." + key
+		}
+		src += p + g.ws() + "=" + g.ws()
+		if depth > 0 && g.next(3) == 0 {
+			src += g.expr(key, depth-1, want)
+		} else {
+			s, v := g.scalar()
+			src += s
+			want[key] = v
+		}
+		src += g.ws()
+		if i+1 < n || g.next(2) == 0 {
+			src += "," + g.ws()
+		}
+	}
+	return src + "}"
+}
+
+func TestGovcBounded_C17(t *testing.T) {
+	if os.Getenv("GOVC_BOUNDED") == "" {
+		t.Skip("no bounded run requested")
+	}
+	thorough := os.Getenv("GOVC_BOUNDED") == "thorough"
+	cases, violations := 0, 0
+	distinct := map[string]bool{}
+	fail := func(what string) {
+		violations++
+		if violations <= 4 {
+			fmt.Println("BOUNDED-VIOLATION:", what)
+		}
+	}
+	// parse with the totality oracle: a map and no error, or an error and no map; never a panic
+	parse := func(in string) (m map[string]string, err error, ok bool) {
+		cases++
+		defer func() {
+			if p := recover(); p != nil {
+				fail(fmt.Sprintf("Parse(%q) panics: %v", in, p))
+				ok = false
+			}
+		}()
+		m, err = expr.Parse(in)
+		switch {
+		case err != nil && m != nil:
+			fail(fmt.Sprintf("Parse(%q) returns both a map and an error", in))
+			return m, err, false
+		case err == nil && m == nil && strings.TrimSpace(in) != "":
+			fail(fmt.Sprintf("Parse(%q) returns neither a map nor an error", in))
+			return m, err, false
+		}
+		return m, err, true
+	}
+
+	// (1) string literals: every body of at most 3 (thorough: 4) lexer items
+	depth := 3
+	if thorough {
+		depth = 4
+	}
+	n, bad := searchStringLiterals(depth)
+	cases += n
+	if bad != "" {
+		fail(bad)
+	}
+	distinct["string-literals"] = true
+
+	// (2) generated well-formed expressions against the reference flattening
+	seed := uint64(88172645463325252)
+	if s := os.Getenv("VERIF_SEED"); s != "" {
+		var v uint64
+		fmt.Sscan(s, &v)
+		seed ^= v * 0x9E3779B97F4A7C15
+	}
+	g := &c17Gen{seed: seed}
+	gen := 4000
+	if thorough {
+		gen = 60000
+	}
+	var valid []string
+	for i := 0; i < gen; i++ {
+		want := map[string]string{}
+		pre, post := g.ws(), g.ws()
+		src := pre + g.expr("", 1+g.next(5), want) + post
+		m, err, ok := parse(src)
+		if !ok {
+			continue
+		}
+		if err != nil {
+			fail(fmt.Sprintf("Parse(%q) fails on a well-formed expression: %s", src, firstLine(err.Error())))
+			continue
+		}
+		if len(m) != len(want) {
+			fail(fmt.Sprintf("Parse(%q) = %q, want %q", src, m, want))
+			continue
+		}
+		for k, v := range want {
+			if got, has := m[k]; !has || got != v {
+				fail(fmt.Sprintf("Parse(%q): key %q is %q (present=%v), want %q", src, k, got, has, v))
+				break
+			}
+		}
+		distinct[fmt.Sprintf("shape:%d", len(want))] = true
+		if i < 400 {
+			valid = append(valid, src)
+		}
+	}
+
+	// (3) totality: every string over a token alphabet up to length L, and mutations of valid expressions
+	alpha := []string{"T", "{", "}", "a", "=", ",", ".", "\"", "\\", "0", "[", "]", " ", "-", "x", "'", "\n", "e"}
+	L := 4
+	if thorough {
+		L = 5
+	}
+	var rec func(s string, d int)
+	rec = func(s string, d int) {
+		parse(s)
+		if d == 0 {
+			return
+		}
+		for _, a := range alpha {
+			rec(s+a, d-1)
+		}
+	}
+	rec("", L)
+	distinct["exhaustive-short-inputs"] = true
+	junk := []string{"", "{", "}", "\"", "\\", "=", ",", "[", "]", ".", "\x00", "\xff", "'", "0x", "1e", "T{", "\"}", "é", "\U0001F600", "/*", "//", "${a}"}
+	for _, v := range valid {
+		for pos := 0; pos <= len(v); pos += 1 + len(v)/24 {
+			for _, j := range junk {
+				parse(v[:pos] + j + v[pos:]) // insertion
+				if pos < len(v) {
+					parse(v[:pos] + j + v[pos+1:]) // replacement
+				}
+			}
+			parse(v[:pos]) // truncation
+		}
+	}
+	distinct["mutations"] = true
+	// long inputs (64 KiB): deep nesting and long tokens
+	for _, big := range []string{
+		strings.Repeat("T{a=", 2000) + "x" + strings.Repeat("}", 2000),
+		strings.Repeat("T{a=", 2000),
+		"T{a=\"" + strings.Repeat("\\/", 30000) + "\"}",
+		"T{" + strings.Repeat("a=1,", 16000) + "}",
+		strings.Repeat("{", 65536),
+		"T{a" + strings.Repeat("[0]", 20000) + "=1}",
+	} {
+		parse(big)
+	}
+	distinct["long-inputs"] = true
+	fmt.Printf("BOUNDED: cases=%d distinct=%d bound=string literals of at most %d lexer items (all 19 alternatives of the STRING rule); %d generated well-formed expressions (nesting <= 6, all literal kinds, dotted/indexed paths, duplicate keys, arbitrary token spacing, optional trailing comma) against a reference flattening; totality on every string of length <= %d over an 18-symbol alphabet, on insert/replace/truncate mutations of 400 valid expressions with 22 junk fragments, and on 6 inputs of up to 64 KiB; distinct counts case classes\n",
+		cases, len(distinct), depth, gen, L)
 }
